@@ -6,7 +6,7 @@ import SciVerif.Tie.Pins
 `case` of `formatCommand` / `SetOut` that the Lean model mirrors. -/
 namespace SciVerif.Tie
 -- functions the model relies on without an obligation of its own naming them (pinned by bin/mkpins):
--- PIN-ALSO: Scipipe.Process_initPortsFromCmdPattern Scipipe.NewTask Scipipe.strInSlice Scipipe.Task_Param Scipipe.Task_Tag Scipipe.FileIP_Path
+-- PIN-ALSO: Scipipe.Process_initPortsFromCmdPattern Scipipe.NewTask Scipipe.strInSlice Scipipe.Task_Param Scipipe.Task_Tag Scipipe.FileIP_Path Scipipe.Task_InPath Scipipe.Task_OutPath Scipipe.Task_InIP Scipipe.Task_OutIP Scipipe.Process_SetOutFunc
 open SciVerif.Generated
 
 theorem generated_consts_c15 : constsMatch = true := by decide
@@ -77,6 +77,7 @@ theorem generated_default_path_shape :
 
 
 
+
 -- BEGIN PINS (written by bin/mkpins; do not edit by hand)
 /-- the Go functions this property's model and obligations were written against have exactly the
 pinned skeletons (SHA-256 prefix of the atom list) -/
@@ -86,8 +87,13 @@ theorem pinned_skeletons_c15 :
      ("Scipipe.FileIP_Path", "c6a514b4100d9a7c"),
      ("Scipipe.NewTask", "95298f03c320cb96"),
      ("Scipipe.Process_SetOut", "a1605d3714f8fc2a"),
+     ("Scipipe.Process_SetOutFunc", "b6f15ffb47edbc31"),
      ("Scipipe.Process_initDefaultPathFuncs", "012072977ffdc36d"),
      ("Scipipe.Process_initPortsFromCmdPattern", "4f7c6ade86c29af6"),
+     ("Scipipe.Task_InIP", "a94b869f8d5b10ae"),
+     ("Scipipe.Task_InPath", "6adc85e09a57f591"),
+     ("Scipipe.Task_OutIP", "98399cf1e18a83b3"),
+     ("Scipipe.Task_OutPath", "ef3f5a7b76578e05"),
      ("Scipipe.Task_Param", "f6b2d87a93ffc9ba"),
      ("Scipipe.Task_Tag", "c339c17bc1c1a114"),
      ("Scipipe.Task_formatCommand", "ccbe98735ce5c7d6"),
